@@ -5,7 +5,8 @@ For a rejected event the first diverging callback is symbolised (llvm-symbolizer
 innermost function of the crate at the divergence — and known findings are keyed by site, because one
 leaking helper surfaces through many operations."""
 import json, os, shutil, subprocess, time
-import vcheck
+from concurrent.futures import ThreadPoolExecutor
+import vcheck, lackey
 
 LEAK = os.path.join(vcheck.VERIF, "leak")
 BIN = os.path.join(vcheck.WORK, "target-leak", "x86_64-unknown-linux-gnu", "release", "vleak")
@@ -62,8 +63,8 @@ def check(prop, tier, seed, spec):
     addrs = sorted({f(e["ra0"]) - 1 for e in events.values() if "ra0" in e} | {f(e["ra1"]) - 1 for e in events.values() if "ra1" in e})
     sym = symbolise(addrs)
     findings = vcheck.load_findings()
-    known, violations = {}, {}
-    for ln, e in events.items():
+    known, violations, known_rep = {}, {}, {}
+    for ln, e in sorted(events.items()):
         s0 = site_of(sym.get(f(e["ra0"]) - 1, [])) if "ra0" in e else ("?", "?")
         s1 = site_of(sym.get(f(e["ra1"]) - 1, [])) if "ra1" in e else ("?", "?")
         e["site"] = s1[0] if s1[0] != "?" else s0[0]      # post-processing label, used only to identify findings
@@ -72,8 +73,29 @@ def check(prop, tier, seed, spec):
         fd = vcheck.match_finding(e, findings, "C01")
         if fd:
             known.setdefault(fd["id"], set()).add(e["form"])
+            known_rep.setdefault(fd["id"], e)
         else:
             violations.setdefault((e["form"], e["site"]), []).append((ln, e))
+    # machine-level cross-check (lib/lackey.py): a candidate is reported only if the uninstrumented optimised
+    # build shows the divergence as well; known findings are re-confirmed the same way in the thorough tier
+    todo = [("cand", k, items[0][1]) for k, items in sorted(violations.items())]
+    if tier == "thorough":
+        todo += [("known", fid, e) for fid, e in sorted(known_rep.items())]
+    machine, ir_only = {}, []
+    if todo:
+        markers = lackey.build_plain()
+        with ThreadPoolExecutor(max_workers=6) as ex:
+            futs = [(kind, key, e, ex.submit(lackey.compare, e["cls"], 0, e["si"], seed, nsec, markers)) for kind, key, e in todo]
+            for kind, key, e, fu in futs:
+                r = fu.result()
+                machine[str(key)] = dict(kind=kind, cls=e["cls"], si=e["si"], **r)
+                if kind == "cand" and not r["differs"]:
+                    ir_only.append(dict(form=key[0], site=key[1], locations=e["site_loc"], runs=len(violations[key])))
+                    vcheck.log("[C01] IR-only divergence (not reported): operation=%s site=%s (%s): the uninstrumented build executes identical instruction and data address sequences (%d instructions)"
+                               % (key[0], key[1], " / ".join(e["site_loc"]), r["n_instr"][0]))
+                    del violations[key]
+                elif kind == "known":
+                    vcheck.log("[C01] known finding %s %s at machine level (%s, secrets 0 vs %d: %d vs %d instructions)" % (key, "confirmed" if r["differs"] else "NOT reproduced", e["cls"], e["si"], r["n_instr"][0], r["n_instr"][1]))
     # statistics
     classes, ops, vt_ops, lens = set(), set(), set(), 0
     samples = []
@@ -98,16 +120,18 @@ def check(prop, tier, seed, spec):
         ln, e = items[0]
         path = os.path.join(rdir, "C01_leak_%d.json" % ln)
         json.dump(dict(property="C01", tier=tier, seed=seed, profile="leak", line=ln, event=e, same_class=len(items),
+                       machine_level=machine.get(str((form, site))),
                        first_divergence=dict(event_index=e.get("dv"), kind={1: "edge", 2: "load", 3: "store", 4: "div", 5: "gep"}.get(e.get("dkind"), "?"), site=e["site"], locations=e["site_loc"])), open(path, "w"), indent=1)
         vcheck.log("VIOLATION property=C01 replay=%s" % path)
-        vcheck.log("  operation=%s: leakage trace depends on a secret operand; first divergence in `%s` (%s) [%d run(s)]" % (form, site, " / ".join(e["site_loc"]), len(items)))
+        ml = machine.get(str((form, site)), {})
+        vcheck.log("  operation=%s: leakage trace depends on a secret operand; first divergence in `%s` (%s) [%d run(s)]; confirmed on the uninstrumented build: %s vs %s instructions, first differing entry %s" % (form, site, " / ".join(e["site_loc"]), len(items), ml.get("n_instr", ["?"])[0], ml.get("n_instr", ["?", "?"])[1], ml.get("first")))
     cov = dict(states=max(1, states), transitions=max(1, states), traces_validated_against_impl=n, evaluations=n,
                distinct_nontrivial=len(classes), operations=len(ops), documented_vartime_operations=len(vt_ops), public_classes=len(classes), secrets_per_class=nsec,
-               leakage_events_observed=lens, divergent_runs=len(rej), known_findings_matched={k: sorted(v) for k, v in known.items()},
+               leakage_events_observed=lens, divergent_runs=len(rej), machine_level_cross_checks=machine, ir_only_divergences=ir_only, known_findings_matched={k: sorted(v) for k, v in known.items()},
                rule="one event per run of an operation of the optimised, SanitizerCoverage-instrumented crate; a class = operation + public parameters; secrets from the adversarial pool (0, 1, MAX, 2^k, bit lengths multiple of the limb size, equal operands, modulus-1, random); non-trivial = a class (its runs must all show the same trace)",
                samples=samples, exhaustive=False)
     vcheck.write_evidence("C01", tier, seed, "exploration", cov, [
-        "LLVM SanitizerCoverage observes edges, loads, stores, GEP indices and division operands of the optimised IR; micro-architectural leakage and back-end select-to-branch conversions after instrumentation are out of scope",
+        "LLVM SanitizerCoverage observes edges, loads, stores, GEP indices and division operands of the optimised IR; a divergence is reported only when valgrind/lackey on the uninstrumented build shows it too; back-end select-to-branch conversions that the IR does not show, and micro-architectural leakage, are out of scope",
         "secrets are sampled from an adversarial pool, not enumerated; x86_64 only",
         "TLC's part is a trivial trace-equality monitor per class; the substance is the instrumentation (DESIGN section 7 C01)"], time.time() - t0, sum(len(v) for v in violations.values()))
     return 1 if violations else 0
